@@ -453,7 +453,8 @@ OPNMIDI_EXPORT void opn2_setLoopHooksOnly(OPN2_MIDIPlayer *device, int loopHooks
         return;
     MidiPlayer *play = GET_MIDI_PLAYER(device);
     assert(play);
-    play->m_sequencer->setLoopHooksOnly(loopHooksOnly);
+    play->m_setup.loopHooksOnly = (loopHooksOnly != 0);
+    play->m_sequencer->setLoopHooksOnly(play->m_setup.loopHooksOnly);
 #else
     ADL_UNUSED(device);
     ADL_UNUSED(loopHooksOnly);
